@@ -15,6 +15,7 @@
 package etcd
 
 import (
+	"bytes"
 	"context"
 	"fmt"
 	"time"
@@ -164,10 +165,27 @@ func isCreate(txn *etcdserverpb.TxnRequest) *etcdserverpb.PutRequest {
 		txn.Compare[0].GetModRevision() == 0 &&
 		len(txn.Failure) == 0 &&
 		len(txn.Success) == 1 &&
-		txn.Success[0].GetRequestPut() != nil {
+		txn.Success[0].GetRequestPut() != nil &&
+		isCompareOnKey(txn.Compare[0], txn.Success[0].GetRequestPut().Key) {
 		return txn.Success[0].GetRequestPut()
 	}
 	return nil
+}
+
+// isCompareOnKey checks that the compare is about the single key which the operation is applied to,
+// a transaction comparing one key and writing another one is not a supported shape.
+func isCompareOnKey(cmp *etcdserverpb.Compare, key []byte) bool {
+	return len(cmp.RangeEnd) == 0 && bytes.Equal(cmp.Key, key)
+}
+
+// isGetOfKey checks that the range request reads exactly the given key
+func isGetOfKey(rng *etcdserverpb.RangeRequest, key []byte) bool {
+	return len(rng.RangeEnd) == 0 && bytes.Equal(rng.Key, key)
+}
+
+// isDeleteOfSingleKey checks that the delete range request removes one key without any option
+func isDeleteOfSingleKey(rng *etcdserverpb.DeleteRangeRequest) bool {
+	return len(rng.RangeEnd) == 0 && !rng.PrevKv
 }
 
 func isDelete(txn *etcdserverpb.TxnRequest) (int64, []byte, bool) {
@@ -175,7 +193,9 @@ func isDelete(txn *etcdserverpb.TxnRequest) (int64, []byte, bool) {
 		len(txn.Failure) == 0 &&
 		len(txn.Success) == 2 &&
 		txn.Success[0].GetRequestRange() != nil &&
-		txn.Success[1].GetRequestDeleteRange() != nil {
+		txn.Success[1].GetRequestDeleteRange() != nil &&
+		isDeleteOfSingleKey(txn.Success[1].GetRequestDeleteRange()) &&
+		isGetOfKey(txn.Success[0].GetRequestRange(), txn.Success[1].GetRequestDeleteRange().Key) {
 		rng := txn.Success[1].GetRequestDeleteRange()
 		return 0, rng.Key, true
 	}
@@ -185,7 +205,10 @@ func isDelete(txn *etcdserverpb.TxnRequest) (int64, []byte, bool) {
 		len(txn.Failure) == 1 &&
 		txn.Failure[0].GetRequestRange() != nil &&
 		len(txn.Success) == 1 &&
-		txn.Success[0].GetRequestDeleteRange() != nil {
+		txn.Success[0].GetRequestDeleteRange() != nil &&
+		isDeleteOfSingleKey(txn.Success[0].GetRequestDeleteRange()) &&
+		isCompareOnKey(txn.Compare[0], txn.Success[0].GetRequestDeleteRange().Key) &&
+		isGetOfKey(txn.Failure[0].GetRequestRange(), txn.Compare[0].Key) {
 		return txn.Compare[0].GetModRevision(), txn.Success[0].GetRequestDeleteRange().Key, true
 	}
 	return 0, nil, false
@@ -198,7 +221,12 @@ func isUpdate(txn *etcdserverpb.TxnRequest) (int64, []byte, []byte, int64, bool)
 		len(txn.Success) == 1 &&
 		txn.Success[0].GetRequestPut() != nil &&
 		len(txn.Failure) == 1 &&
-		txn.Failure[0].GetRequestRange() != nil {
+		txn.Failure[0].GetRequestRange() != nil &&
+		isCompareOnKey(txn.Compare[0], txn.Success[0].GetRequestPut().Key) &&
+		isGetOfKey(txn.Failure[0].GetRequestRange(), txn.Compare[0].Key) &&
+		!txn.Success[0].GetRequestPut().PrevKv &&
+		!txn.Success[0].GetRequestPut().IgnoreValue &&
+		!txn.Success[0].GetRequestPut().IgnoreLease {
 		return txn.Compare[0].GetModRevision(),
 			txn.Compare[0].Key,
 			txn.Success[0].GetRequestPut().Value,
